@@ -310,7 +310,7 @@ fn mode_name(h: Option<Hinting>) -> String {
 /// font/skrifa.rs forces the interpreter for them — both are inside the instances).
 /// Differences to fauntlet: (1) the advance is compared for static fonts too (fauntlet only
 /// reports an advance mismatch when HVAR and gvar are both present); (2) no early `break`.
-fn differential(cfg: &Config, s: &mut Session, path: &std::path::Path, ppems: &[u32], modes: &[Option<Hinting>]) {
+pub fn differential(cfg: &Config, s: &mut Session, path: &std::path::Path, ppems: &[u32], modes: &[Option<Hinting>]) {
     let name = path.file_name().unwrap().to_string_lossy().to_string();
     let Some(mut font) = fauntlet::Font::new(path) else {
         s.count("diff:font-unreadable");
